@@ -15,7 +15,7 @@ import numpy as np
 import scipy.sparse as sps
 
 import porepy as pp
-from engines.history import Op, run_history
+from engines.history import Observer, Op, run_history
 from simkit.runner import Workload
 from simkit.trace import Trace, Violation
 
@@ -36,7 +36,7 @@ ASSUMPTIONS = [
     "tolerance 1e-10 on sums, 1e-12 on transposes",
 ]
 PROBES = ["mortar_nonmatching", "mortar_one_side_only", "mortar_perturbed_nodes", "secondary_refined", "secondary_copy", "primary_refined", "primary_coarser",
-          "primary_after_nonmatching_mortar", "secondary_after_nonmatching_mortar", "mortar_after_primary", "three_kinds_in_one_run", "immersed_tip", "ge_4_replacements", "mortar_sides_given_in_other_order", "mortar_nonmatching_3d", "secondary_refined_3d", "grid_1d_non_monotone_numbering"]
+          "primary_after_nonmatching_mortar", "secondary_after_nonmatching_mortar", "mortar_after_primary", "three_kinds_in_one_run", "immersed_tip", "ge_4_replacements", "mortar_sides_given_in_other_order", "mortar_nonmatching_3d", "secondary_refined_3d", "grid_1d_non_monotone_numbering", "observation_sparse", "observation_end"]
 
 TOL = 1e-9
 
@@ -186,7 +186,9 @@ def run_history_c26(ch, tr: Trace) -> None:
         tr.probe("immersed_tip")
     state = {"mortar_nonmatching": False, "secondary_replaced": False, "kinds": set(), "n": 0, "primary_replaced": False}
     tr.emit("config", "full" if full else "tip", nx0)
+    obs = Observer(ch, tr)
     check_interface(mdg, intf, frac_len, "construction (matching)", tr)
+    last_where = ["construction (matching)"]
 
     def after(kind, where):
         state["kinds"].add(kind)
@@ -197,7 +199,9 @@ def run_history_c26(ch, tr: Trace) -> None:
             tr.probe("ge_4_replacements")
         hi, lo = mdg.interface_to_subdomain_pair(intf)
         tr.state((min(intf.num_cells // 2, 8), min(lo.num_cells, 8), min(int(hi.tags["fracture_faces"].sum()), 10), state["mortar_nonmatching"], state["secondary_replaced"]))
-        check_interface(mdg, intf, frac_len, where, tr)
+        last_where[0] = where
+        if obs.due():
+            check_interface(mdg, intf, frac_len, where, tr)
 
     def guarded(what, fn):
         try:
@@ -267,6 +271,7 @@ def run_history_c26(ch, tr: Trace) -> None:
 
     ops = [Op("replace_mortar", 4, op_mortar, core=True), Op("replace_secondary", 2, op_secondary), Op("replace_primary", 3, op_primary)]
     run_history(ch, tr, ops, 2, 7)
+    check_interface(mdg, intf, frac_len, last_where[0] + " (checked at the end of the history)", tr)
     tr.emit("end", state["n"])
 
 
